@@ -32,7 +32,12 @@ def sh(cmd, cwd=None, timeout=3600):
 
 
 def main():
-    dirs = [os.path.abspath(d) for d in sys.argv[1:]]
+    global WT
+    args = sys.argv[1:]
+    if args and args[0] == "--wt":
+        WT = args[1]
+        args = args[2:]
+    dirs = [os.path.abspath(d) for d in args]
     sh(f"git -C {REPO} worktree remove --force {WT}")
     shutil.rmtree(WT, ignore_errors=True)
     rc, out = sh(f"git -C {REPO} worktree prune; git -C {REPO} worktree add --detach {WT} HEAD")
